@@ -50,7 +50,26 @@ CHECKS.update({
             "Trusted: vp/gen/nmoutput.py (formats as documented and as in the checked-in example outputs); numpy for matrix relations with condition-number scaled tolerances.", "DESIGN.md §3 C20"),
 })
 
-READY = ["C01", "C10", "C11", "C13", "C17", "C18", "C20"]
+CHECKS.update({
+    "C04": ("exploration",
+            "two independent readers of the generated parameter records (vp.nmtran_ref record readers and pharmpy's own reader) monitored after every edit of generated record layouts; token-spelling monitor for untouched values",
+            "Generated $THETA/$OMEGA/$SIGMA layouts are read, edited by random sequences of public parameter / random-effect edits, and after every edit the generated text must give back exactly the model's parameters and distributions under both readers; untouched thetas and untouched $OMEGA/$SIGMA records must keep their spelling. Violations are attributed to listed mechanisms only by replaying the same edits on a repaired layout (delta check).",
+            "Trusted: record semantics of DESIGN.md Appendix A.3 as coded in vp.nmtran_ref; bounds are compared for thetas only (NM-TRAN has none for $OMEGA/$SIGMA).", "DESIGN.md §3 C04"),
+    "C05": ("exploration",
+            "shadow-model monitor: a dict-of-edges shadow maintained in lock-step with CompartmentalSystemBuilder calls; numeric comparison of eqs / matrix / inputs / mass balance / round trips at random points",
+            "Random builder histories on <= 6 compartments; every built system is compared with the shadow on equations, compartmental matrix, zero-order inputs, mass balance, to_compartmental_system equivalence, dict/JSON round trip, subs and accessors.",
+            "Trusted: the shadow in vp/gen/graphs.py (no pharmpy imports), vp.ir_eval for numeric evaluation.", "DESIGN.md §3 C05"),
+    "C14": ("exploration",
+            "record-by-record reference walk (explicit loops) vs the real dataset derivations on generated event datasets; frame-preservation and input-unchanged monitors",
+            "Generated event datasets (ties, ADDL/II, SS, EVID 0-4, unsorted ids, renamed columns) are passed to every derivation of pharmpy.modeling.data and compared with a chronological per-individual walk; column-adding functions are checked to keep records, values, dtypes and order and not to touch the input frame.",
+            "Trusted: the reference walks in vp/gen/datasets.py following the function docstrings (tie rule of get_doseid); undocumented cases are counted as not judged.", "DESIGN.md §3 C14"),
+    "C19": ("exploration",
+            "defining formulas in numpy/scipy and an independent strictness evaluator / parameter classifier vs the real ranking, criteria, LRT and resampling statistics on synthetic results",
+            "Candidate sets derived from example models with synthetic ModelfitResults (ties, NaN, inf, flags) are ranked by the real rank_models under all rank types, cut-offs, penalties, parent maps and random strictness expressions and compared with a reference; AIC/BIC/LRT and bootstrap/cdd/simeval/shrinkage/delta-method statistics are recomputed from their definitions.",
+            "Trusted: formulas as documented (docs/*.rst, docstrings) coded in vp/gen/results.py; where docs leave a choice the numpy/pandas defaults are accepted (listed in the evidence).", "DESIGN.md §3 C19"),
+})
+
+READY = ["C01", "C05", "C10", "C11", "C13", "C14", "C17", "C18", "C19", "C20"]
 
 NOT_BUILT = "check not built yet in this session (design in DESIGN.md); not claimed"
 
